@@ -397,6 +397,7 @@ func c02Run(tr *tracer, sc *c02Scenario, variant uint64) {
 	var data []byte
 	var nrows int
 	var err error
+	c0, r0 := parquet.VerifPathCounters()
 	pan, msg := guard(func() {
 		data, nrows, err = write(sc.Cfg, optSeed)
 		if err != nil || path == "direct" {
@@ -436,7 +437,8 @@ func c02Run(tr *tracer, sc *c02Scenario, variant uint64) {
 		return
 	}
 	hints, herr := c02Hints(data)
-	e := ev{"bytes": bytesToInts(data), "hints": hints, "expect": streams, "rows": nrows, "size": len(data)}
+	c1, r1 := parquet.VerifPathCounters()
+	e := ev{"bytes": bytesToInts(data), "hints": hints, "expect": streams, "rows": nrows, "size": len(data), "copied": int(c1 - c0), "reencoded": int(r1 - r0)}
 	if herr != nil {
 		e["hintError"] = herr.Error()
 	}
